@@ -96,13 +96,23 @@ class SkipgramSpec(Spec):
     tol = 1e-6
 
     def configs(self, tier):
-        return [{"window_radius": r, "kernel_function": k} for r in (1, 2) for k in ("flat", "harmonic")]
+        base = [{"window_radius": r, "kernel_function": k} for r in (1, 2) for k in ("flat", "harmonic")]
+        # frequency-dependent window radii, with and without a pruned vocabulary (the radii are a function of the
+        # FIT-time frequencies; transform must reuse them whatever the new data's token mix is)
+        var = [{"window_radius": 2, "window_function": "variable"},
+               {"window_radius": 2, "window_function": "variable", "min_occurrences": 2},
+               {"window_radius": 1, "window_function": "variable", "ignored_tokens": {"a"}},
+               {"window_radius": 2, "window_function": "variable", "ignored_tokens": {"a"}},
+               {"window_radius": 2, "min_occurrences": 2, "kernel_function": "harmonic"}]
+        return base + var
 
     def make(self, cfg):
         import vectorizers as V
         return V.SkipgramVectorizer(**cfg)
 
     def train_sets(self, cfg, tier):
+        if cfg.get("window_function") == "variable" or "min_occurrences" in cfg:
+            return [["ababbaab", "bcabab", "aad"], ["aabaabbb", "", "cbcbab", "abd"]]
         return [["ab", "bca"], ["aab", "", "cb"]]
 
     def pool(self, cfg, tier):
@@ -368,6 +378,11 @@ class InfoWeightSpec(CountMatrixSpec):
 
     def configs(self, tier):
         return [{"prior_strength": p, "approx_prior": a} for p in (1e-4, 1.0) for a in (False, True)]
+
+    def train_sets(self, cfg, tier):
+        # second training matrix: a column with no entry at all and an empty row (the per-column kernels must not read
+        # the first index of an empty column)
+        return CountMatrixSpec.train_sets(self, cfg, tier) + [[[1, 0, 2], [0, 0, 1], [0, 0, 0], [5, 0, 1]]]
 
     def make(self, cfg):
         from vectorizers.transformers import InformationWeightTransformer
